@@ -83,8 +83,10 @@ def tensor(env, topo, grid, radius):
                 # the areas are concrete doubles; the code divides the exact sum of p*A_i by the *rounded* sum of the A_i:
                 # ratio = exact sum / rounded sum is 1 up to a few ulp (checked), and the entry must be exactly -p*ratio
                 from fractions import Fraction
+                import pandas as pd
                 exact = sum((Fraction(areas[cid]) for cid in inside), Fraction(0))
-                rounded = Fraction(float(sum(areas[cid] for cid in inside)))
+                # the code sums the selected areas with pandas (pairwise summation): use the very same operation
+                rounded = Fraction(float(pd.Series([areas[cid] for cid in fr.cells if cid in inside]).sum()))
                 ratio = exact / rounded
                 iso_ok = iso_ok & (abs(float(ratio) - 1.0) < 1e-12)
                 if env.mode == "sym":
